@@ -138,6 +138,24 @@ def run(ctx):
             ctx.coverage["long_body_rotations"] = ctx.coverage.get("long_body_rotations", 0) + k
         except Exception as e:  # noqa
             ctx.coverage.setdefault("memory_kernel_errors", []).append(repr(e)[:200])
+    # twin forms: one mnemonic in two addressing forms that the model costs differently (unit-stride vs gather SVE loads on a64fx,
+    # numeric vs symbolic displacement): which entry a line gets must not depend on which line of the body is looked up first.
+    # Every rotation is analysed on NEW model objects, as every command line run is.
+    twins = [("aarch64", "a64fx", ["ld1d {z2.d}, p0/z, [x1, x4, lsl #3]", "ld1d {z1.d}, p0/z, [x0, z1.d, lsl #3]", "ld1d {z4.d}, p0/z, [x2, z1.d, lsl #3]",
+                                   "fmla z3.d, p0/m, z2.d, z4.d", "incd x4", "whilelo p0.d, x4, x5", "b.first .L4"]),
+             ("aarch64", "a64fx", ["ld1w {z1.s}, p0/z, [x0, z1.s, uxtw #2]", "ld1w {z2.s}, p0/z, [x1, x4, lsl #2]", "fadd z3.s, z3.s, z2.s", "incw x4", "b.first .L4"]),
+             ("x86", "zen3", ["vmovsd (%rax,%rbx,8), %xmm1", "vaddsd %xmm1, %xmm0, %xmm0", "vmovsd tab(,%rbx,8), %xmm2", "vaddsd %xmm2, %xmm0, %xmm0", "addq $1, %rbx"]),
+             ("x86", "zen3", ["movq (,%rcx,8), %rcx", "movq 8(%rax,%rcx,8), %rdx", "addq %rdx, %rsi", "addq $8, %rax"])]
+    for isa, arch, body in twins:
+        if arch not in avail:
+            continue
+        try:
+            k = depcheck.rotation_oracle(ctx, None, "\n".join(body) + "\n", False, isa, "twin-form kernel on " + arch,
+                                         fresh=lambda isa=isa, arch=arch: deps.Pipeline(ctx, isa, arch=arch, fresh=True))
+            ctx.nontriv("\n".join(body))
+            ctx.coverage["twin_form_rotations"] = ctx.coverage.get("twin_form_rotations", 0) + k
+        except Exception as e:  # noqa
+            ctx.coverage.setdefault("memory_kernel_errors", []).append("twin %s: %r" % (arch, repr(e)[:200]))
     import pressure, models
     pairs = []
     for f in pressure.kernel_files():
@@ -156,7 +174,8 @@ def run(ctx):
             continue
         text = "\n".join(lines) + "\n"
         try:
-            depcheck.rotation_oracle(ctx, pipe, text, False, isa, "%s on %s" % (f.split("/repo/")[-1], a), max_rot=ctx.n(6, 40))
+            depcheck.rotation_oracle(ctx, pipe, text, False, isa, "%s on %s" % (f.split("/repo/")[-1], a), max_rot=ctx.n(6, 40),
+                                     fresh=(lambda isa=isa, a=a: deps.Pipeline(ctx, isa, arch=a, fresh=True)) if done % 2 == 0 else None)
             done += 1
         except Exception as e:  # noqa
             ctx.coverage.setdefault("real_skipped", []).append("%s %s: %r" % (a, f, e))
@@ -169,3 +188,5 @@ def replay(ctx, obj):
         arch = r["origin"].split(" on ")[-1]
         pipe = deps.Pipeline(ctx, r["isa"], arch=arch)
         depcheck.rotation_oracle(ctx, pipe, r["text"], r["flagdeps"], r["isa"], r["origin"])
+        depcheck.rotation_oracle(ctx, None, r["text"], r["flagdeps"], r["isa"], r["origin"],
+                                 fresh=lambda: deps.Pipeline(ctx, r["isa"], arch=arch, fresh=True))
